@@ -4,7 +4,7 @@
 From CB Require Import ProofLib Spec MonitorSound Results.
 From CB Require Import Inv_relay_pull Inv_take_pull Inv_from_iter_pull Inv_concat_pull Inv_flatten_pull.
 From CB Require Import Flow Flow_relay Flow_drop Flow_take Flow_ends.
-From CB Require Import Chain Programs LivenessG ClosedDemand PullPrograms.
+From CB Require Import Chain Programs LivenessG ClosedDemand PullPrograms PullReturns.
 
 (** pull regime: the monitor's VOverPull / VOverData / VUnanswered checks never fire *)
 Theorem C14_map_safe_pull (f : val -> val) p :
@@ -273,3 +273,22 @@ Theorem C14_closed_disciplined (it : nat -> option val) (stages : list ustage) :
     nreach1 n /\ credit (nms n) 0 + pin (ntrace n) = hout (ntrace n) + dout (ntrace n).
 Proof. exact (@closed_disciplined it stages). Qed.
 Print Assumptions C14_closed_disciplined.
+
+(** "... every Pull is answered by a Data or the end WITHOUT FURTHER PROMPTING" (PullReturns.v): over a finite
+    input, from every state of a disciplined run the pending internal transfers finish after at most
+    [returns_max] steps and the sink has the turn again - however many moves the sink has made before *)
+Theorem C14_program_returns (xs : list val) (stages : list ustage) :
+  Forall ustage_ok stages ->
+  forall N, preach (fun k => nth_error xs k) stages N ->
+  exists m, m <= returns_max xs stages /\ pend (taus m N) = PIdle /\
+            preach (fun k => nth_error xs k) stages (taus m N).
+Proof. exact (@program_returns_list xs stages). Qed.
+Print Assumptions C14_program_returns.
+
+(** every node of such a run makes at most [2 |xs| + 5] calls, whatever the sink does *)
+Theorem C14_program_calls_bounded (xs : list val) (it : nat -> option val) :
+  (forall k, it k = nth_error xs k) -> forall stages, Forall ustage_ok stages ->
+  forall N, preach it stages N ->
+  forall i n, nth_error (nodes N) i = Some n -> n_call (ntrace n) <= calls_max xs.
+Proof. exact (@program_calls_bounded xs it). Qed.
+Print Assumptions C14_program_calls_bounded.
